@@ -11,5 +11,6 @@ def run(tier):
     # the vector-level algebra rests on CliqueVector applying the Factor operators clique by clique, and on combine adding a table only
     # into a clique that contains its clique (pv/contracts/cvec.py)
     from ..contracts import cvec
-    from ..contracts import aggsite
+    from ..contracts import aggsite, active
+    reps += [deductive.verify_function(rel, q, c, hooks=active.hooks_for(c), prefix='%s::%s[zero specification]' % (rel, q)) for rel, q, c in active.ITEMS]
     return reps + cvec.reports() + aggsite.reports(('logsumexp',))
